@@ -42,7 +42,11 @@ Patterns == <<
   <<L("src"), Glob("ma?n.lua")>>,                \* 18  src/ma?n.lua
   <<Glob("s*"), L("sub"), Glob("*_a.lua")>>,     \* 19  s*/sub/*_a.lua
   <<DStar, Glob("*_?.lua")>>,                    \* 20  **/*_?.lua
-  <<L("src"), L("sub"), Glob("t*")>>             \* 21  src/sub/t*
+  <<L("src"), L("sub"), Glob("t*")>>,            \* 21  src/sub/t*
+  \* patterns whose FIRST character is a dot: a hidden directory is not the directory of the same name without the dot
+  <<Glob(".*"), DStar>>,                         \* 22  .*/**          (only components starting with a dot)
+  <<L(".src"), DStar>>,                          \* 23  .src/**        (another directory than src)
+  <<L(".src"), L("sub"), Ext("lua")>>            \* 24  .src/sub/*.lua
 >>
 NP == Len(Patterns)
 
@@ -50,7 +54,7 @@ NP == Len(Patterns)
 PL(form, idx) == [form |-> form, pats |-> [i \in DOMAIN idx |-> Patterns[idx[i]]]]
 NoList == PL("none", <<>>)
 Singles == {PL("one", <<p>>) : p \in 1..NP}
-Arrays == {PL("many", <<1, 5>>), PL("many", <<2, 12>>), PL("many", <<7, 8>>), PL("many", <<3>>), PL("many", <<>>), PL("many", <<10, 14>>), PL("many", <<16, 18>>), PL("many", <<5, 17>>)}
+Arrays == {PL("many", <<1, 5>>), PL("many", <<2, 12>>), PL("many", <<7, 8>>), PL("many", <<3>>), PL("many", <<>>), PL("many", <<10, 14>>), PL("many", <<16, 18>>), PL("many", <<5, 17>>), PL("many", <<22, 5>>), PL("many", <<23>>)}
           \cup (IF Thorough THEN {PL("many", <<p, q>>) : p \in {1, 2, 4, 6}, q \in {3, 5, 7, 11, 13}} \cup {PL("many", <<p>>) : p \in 1..NP} ELSE {})
 Lists == {NoList} \cup Singles \cup Arrays
 FewLists == {NoList, PL("one", <<1>>), PL("many", <<2, 12>>)}
